@@ -111,7 +111,26 @@ theorem parentSide_sync (k : Kind) (env : Env) (hk : k ≠ .async) : parentSide 
 
 theorem getTty_jobs (env : Env) : (getTty env).jobs = env.jobs := by
   unfold getTty
-  split <;> rfl
+  split
+  · rfl
+  · simp only []
+    split
+    · split
+      · rfl
+      · split <;> rfl
+    · rfl
+
+/-- `get_tty` touches `env.tty` and the process only -/
+theorem getTty_traps (env : Env) : (getTty env).traps = env.traps := by
+  unfold getTty
+  split
+  · rfl
+  · simp only []
+    split
+    · split
+      · rfl
+      · split <;> rfl
+    · rfl
 
 theorem monitorChanged_jobs (o : String) (env : Env) : (monitorChanged o env).jobs = env.jobs := by
   unfold monitorChanged
